@@ -1,0 +1,25 @@
+// SPDX-FileCopyrightText: 2026 The Pion community <https://pion.ly>
+// SPDX-License-Identifier: MIT
+
+//go:build verif
+
+package rtpbuffer
+
+import "github.com/pion/rtp"
+
+// VerifNewPacketFactoryCopy is NewPacketFactoryCopy with a caller-chosen RTX sequencer, so that
+// the external verification harness can observe the RTX sequence numbers deterministically.
+func VerifNewPacketFactoryCopy(rtxSequencer rtp.Sequencer) *PacketFactoryCopy {
+	f := NewPacketFactoryCopy()
+	f.rtxSequencer = rtxSequencer
+
+	return f
+}
+
+// VerifCount returns the reference count of the packet (0 = storage returned to the pool).
+func (p *RetainablePacket) VerifCount() int {
+	p.countMu.Lock()
+	defer p.countMu.Unlock()
+
+	return p.count
+}
